@@ -24,6 +24,12 @@ CHECKS = {
         'time_limit': {'quick': 600, 'thorough': 3600},
         'assumptions': CALNOTE + ['naming rules (fixedref in c15.cc) transcribed from time_zone.h / time_zone_fixed.h documentation'],
     },
+    'C18': {
+        'bins': [rcbin('C18')],
+        'shards': {'quick': 12, 'thorough': 12},
+        'time_limit': {'quick': 600, 'thorough': 3600},
+        'assumptions': CALNOTE,
+    },
     'C17': {
         'bins': [rcbin('C17')],
         'shards': {'quick': 8, 'thorough': 16},
